@@ -79,9 +79,9 @@ def watcher (uid : Nat) : P Watcher := do
     autostart := autostart, maxRetry := maxRetry, sendHup := sendHup, maxAge := maxAge, hooks := hooks,
     ignoreFail := base.ignoreFail ++ (hooks.filter (·.2.ignore)).map (·.1), uid := uid }
 
-def watchers : Nat → Nat → P (List Watcher)
-  | 0, _ => pure []
-  | n + 1, uid => do let w ← watcher uid; let r ← watchers n (uid + 1); pure (w :: r)
+def watchers : Nat → P (List Watcher)
+  | 0 => pure []
+  | n + 1 => do let w ← watcher 0; let r ← watchers n; pure (w :: r)
 
 def behav : P Behav := do
   let term ← optNat
@@ -111,20 +111,14 @@ def scenario : P (State × List Op) := do
   let aw ← nat
   expect "W"
   let nw ← nat
-  let ws ← watchers nw 1
+  let ws ← watchers nw
   expect "B"
   let nb ← nat
   let bs ← rep nb behav
   expect "O"
   let no ← nat
   let ops ← rep no op
-  -- Arbiter.initialize: names filled in iter_watchers() order
-  let sorted := sortWatchers ws true
-  let s : State := {
-    k := { behavs := if bs.isEmpty then [{}] else bs },
-    a := { watchers := ws.map (·.uid), names := sorted.foldl (fun acc w =>
-             acc.filter (·.1 ≠ pyLower w.name) ++ [(pyLower w.name, w.uid)]) [], warmup := aw },
-    ws := ws, nextId := nw + 1 }
+  let s := initState ws bs aw
   pure (s, ops)
 
 def runOps (s : State) : List Op → List String
